@@ -25,7 +25,175 @@ What "accepts" means per API (the reading of the property, documented here once)
 Everything else the model predicts about an API (its exact accept set, spans, error kinds) is the
 correspondence: a difference there that is not already a violation is reported as `tie:...`.
 """
+import os
+import re
+
+from .. import core
 from ..runner import Spec, Stream
+
+# ---------------------------------------------------------------------------------------------------------
+# regenerated fact: the decision table of the generic (interface{}) decoder's value state machine, re-read
+# from internal/decoder/jitdec/generic_regabi_amd64.go on every run and compared with the table the
+# theorems of Props/C02Generic.lean are about (driver op `gentab`).  The reader is a small symbolic walk over
+# the Emit/Sjmp/Link lines of `_ValueDecoder.compile`; it fails loudly on any shape it does not know.
+HANDLERS = {"scalar": "_decode_V_NULL", "str": "_decode_V_STRING", "lb": "_decode_V_ARRAY", "lc": "_decode_V_OBJECT",
+            "colon": "_decode_V_KEY_SEP", "comma": "_decode_V_ELEM_SEP", "rb": "_decode_V_ARRAY_END", "rc": "_decode_V_OBJECT_END"}
+SAME_AS_SCALAR = ["_decode_V_TRUE", "_decode_V_FALSE", "_decode_V_DOUBLE", "_decode_V_INTEGER"]
+
+
+def extract_generic_table(path):
+    """re-read the value state machine of the generic decoder from its Go source: {(tok, state): 'setTop:setBelow:push:pop' | '-'}"""
+    src = open(path).read()
+    m = re.search(r"const \(\s*_S_val = iota \+ 1(.*?)\)", src, re.S)
+    names = ["_S_val"] + re.findall(r"(_S_\w+)", m.group(1))
+    num = {n: i + 1 for i, n in enumerate(names)}
+    masks = {}
+    for mm in re.finditer(r"(_S_\w*mask\w*)\s*=\s*(.*)", src):
+        masks[mm.group(1)] = {num[x] for x in re.findall(r"1 << (_S_\w+)", mm.group(2))}
+    body = src[src.index("func (self *_ValueDecoder) compile()"):]
+    ops = []
+    for line in body.split("\n"):
+        line = line.split("//")[0].strip()
+        mm = re.match(r'self\.Link\("([^"]+)"\)', line)
+        if mm:
+            ops.append(("link", mm.group(1), ""))
+            continue
+        mm = re.match(r'self\.Sjmp\("(\w+)",\s*"([^"]+)"\)', line)
+        if mm:
+            ops.append(("sjmp", mm.group(1), mm.group(2)))
+            continue
+        mm = re.match(r'self\.Rjmp\(', line)
+        if mm:
+            ops.append(("rjmp", "", ""))
+            continue
+        mm = re.match(r'self\.Emit\("(\w+)",\s*(.*)\)$', line)
+        if mm:
+            ops.append(("emit", mm.group(1), mm.group(2)))
+    label = {o[1]: i for i, o in enumerate(ops) if o[0] == "link"}
+    allst = set(num.values())
+
+    def walk(pos, states, act, push, depth=0):
+        res = []
+        curmask = None
+        pending = None
+        steps = 0
+        while pos < len(ops) and states and steps < 400:
+            steps += 1
+            kind, a, b = ops[pos]
+            pos += 1
+            if kind == "link":
+                if a == "_next":
+                    res.append((set(states), dict(act)))
+                    return res
+                continue
+            if kind == "rjmp":
+                raise ValueError("indirect jump inside a handler")
+            if kind == "emit":
+                mk = re.search(r"jit\.Imm\((_S_\w*mask\w*)\)", b)
+                if mk:
+                    curmask = masks[mk.group(1)]
+                    continue
+                if a == "BTQ":
+                    pending = ("bt", curmask) if ("jit.Imm(" not in b and curmask is not None) else ("flag", None)
+                    continue
+                if a == "CMPQ":
+                    mc = re.search(r"jit\.Imm\((_S_\w+)\)", b)
+                    if mc:
+                        pending = ("cmp", num[mc.group(1)])
+                    elif "MAX_RECURSE" in b:
+                        pending = ("ovf", None)
+                    else:
+                        pending = ("other", None)
+                    continue
+                if a in ("TESTQ", "TESTL"):
+                    pending = ("other", None)
+                    continue
+                mw = re.search(r"jit\.Imm\((_S_\w+)\),\s*jit\.Sib\(_ST,\s*_CX,\s*8,\s*_ST_Vt(\s*-\s*8)?\)", b)
+                if a == "MOVQ" and mw:
+                    if mw.group(2):
+                        act["below"] = num[mw.group(1)]
+                    elif push:
+                        act["push"] = num[mw.group(1)]
+                    else:
+                        act["top"] = num[mw.group(1)]
+                    continue
+                if a == "ADDQ" and re.match(r"jit\.Imm\(1\),\s*_CX$", b):
+                    push = True
+                    continue
+                ms = re.match(r"jit\.Imm\((\d+)\),\s*jit\.Ptr\(_ST,\s*_ST_Sp\)$", b)
+                if a == "SUBQ" and ms:
+                    act["pop"] = int(ms.group(1))
+                    continue
+                continue
+            # sjmp
+            cond, tgt = a, b
+            if cond == "JMP":
+                if tgt == "_next":
+                    res.append((set(states), dict(act)))
+                    return res
+                pos = label[tgt]
+                continue
+            if pending and pending[0] == "bt":
+                if cond == "JNC":
+                    if tgt not in ("_invalid_char", "_vtype_error"):
+                        raise ValueError("unexpected JNC target " + tgt)
+                    states = states & pending[1]
+                elif cond == "JC":
+                    res += walk(label[tgt], states & pending[1], dict(act), push, depth + 1)
+                    states = states - pending[1]
+                else:
+                    raise ValueError("unexpected jump after state test: " + cond)
+                pending = None
+                continue
+            if pending and pending[0] == "cmp":
+                if cond == "JE":
+                    res += walk(label[tgt], states & {pending[1]}, dict(act), push, depth + 1)
+                    states = states - {pending[1]}
+                elif cond == "JNE":
+                    if tgt != "_invalid_char":
+                        raise ValueError("unexpected JNE target " + tgt)
+                    states = states & {pending[1]}
+                else:
+                    raise ValueError("unexpected jump after CMPQ state: " + cond)
+                pending = None
+                continue
+            if pending and pending[0] == "ovf":
+                if not (cond == "JAE" and tgt == "_stack_overflow"):
+                    raise ValueError("overflow check shape")
+                act["chk"] = True
+                pending = None
+                continue
+            # flag tests, capacity tests, packed-string tests: both ways do the same to the state stack
+            pending = None
+        raise ValueError("handler does not reach _next")
+
+    def fmt(act):
+        if act.get("push") and not act.get("chk"):
+            raise ValueError("push without MAX_RECURSE check")
+        return "%d:%d:%d:%d" % (act.get("top", 0), act.get("below", 0), act.get("push", 0), act.get("pop", 0))
+
+    table = {}
+    for tok, lab in HANDLERS.items():
+        for s in allst:
+            table[(tok, s)] = "-"
+        for states, act in walk(label[lab], set(allst), {}, False):
+            for s in states:
+                table[(tok, s)] = fmt(act)
+    for lab in SAME_AS_SCALAR:
+        t2 = {}
+        for s in allst:
+            t2[s] = "-"
+        for states, act in walk(label[lab], set(allst), {}, False):
+            for s in states:
+                t2[s] = fmt(act)
+        for s in allst:
+            if t2[s] != table[("scalar", s)]:
+                raise ValueError("%s differs from _decode_V_NULL in state %d" % (lab, s))
+    return table
+
+
+
+GENERIC_SRC = "internal/decoder/jitdec/generic_regabi_amd64.go"
 
 WS = b" \t\n\r"
 
@@ -39,19 +207,31 @@ APIS = {
     "node_unm": ("", "structB"),
     "get": ("", "newraw"), "newraw_check": ("", "newraw"),
     "skip": ("", None),
+    # wave 3: further public entry points
+    "enc_valid": ("", "valid"), "get_str": ("", "newraw"), "newraw_cr": ("", "newraw"),
+    "loads": ("", None), "dec_decode": ("", None), "dec_usenumber": ("", None), "dec_useint64": ("", None),
+    "mar_marshaler": ("", "valB"), "mar_raw": ("", "valB"), "mar_marshaler_std": ("", None),
     "w_raw": ("w_", "m_structB"), "w_raw_std": ("w_", "m_valB"), "w_unmarshaler": ("w_", "m_structB"),
     "w_skipped": ("w_", "m_structB"), "w_skipped_std": ("w_", "m_valB"),
 }
 # scanners without string validation (flags 0): where DESIGN §8 #11 shows
 NONVALIDATING = {"valid", "validstr", "valid_std", "unm_any", "unm_raw", "unm_unmarshaler", "node_unm", "get",
-                 "newraw_check", "skip", "unm_struct", "unm_empty"}
+                 "newraw_check", "skip", "unm_struct", "unm_empty",
+                 "enc_valid", "get_str", "newraw_cr", "dec_decode", "dec_usenumber", "dec_useint64", "loads"}
+# entry points that skip one value and never look at what follows it (DESIGN §8 #12)
+IGNORE_TRAILING = ("get", "newraw_check", "get_str", "newraw_cr", "loads")
+# validate-string scanner applied to the text as it is (no UTF-8 repair first): alg.ValidStrict
+RAW_VALIDATE = ("mar_marshaler", "mar_raw")
 # decoders that are not the transliterated FSM (generic interface{} decoder, compiled struct decoders, the Go
 # parser behind Node.LoadAll): they keep their own frame stacks of MAX_RECURSE = 4096 entries with their own
 # bookkeeping, so at nesting depth exactly 4096 acceptance depends on the shape (probed: `[`x4096 is refused by
 # the generic decoder and taken by the FSM).  They are held to "nothing refused up to depth 4095"; the FSM
 # users are held to the exact frame count the model proves (`validate_complete`: frames <= 4096).
-OWN_STACK = {"unm_any", "unm_any_std", "unm_struct", "unm_struct_std", "unm_empty"}
+OWN_STACK = {"unm_any", "unm_any_std", "unm_struct", "unm_struct_std", "unm_empty",
+             "loads", "dec_decode", "dec_usenumber", "dec_useint64", "mar_marshaler_std"}
 DEPTH_ALL = 4095
+# entry points that run the generic value state machine on the whole text: held to its exact slot count
+GENERIC = {"unm_any", "unm_any_std", "dec_decode", "dec_usenumber", "dec_useint64"}
 # destinations of `valid typed`, in the order of c02TDests (go/harness/ops_json.go); two flags each: default, std
 TYPED = ["struct", "pstruct", "slice", "array", "map", "mapstruct", "slice2", "slicestruct", "sliceany", "mapany",
          "int", "string", "bool", "float"]
@@ -140,7 +320,7 @@ def shape(doc, closer, case, m):
                 k += 1
         if not term:
             return "unterminated-string-tail-empty" if scalar_tail_empty(body) else "unterminated-string"
-    sk = (m.get("skip") or "").split(":")
+    sk = (m.get("skipU") or m.get("skip") or "").split(":")    # skipU: the first value at any depth
     if sk[0] == "ok" and doc[int(sk[2]):].strip(WS):
         return "trailing-bytes"
     return "other"
@@ -148,7 +328,7 @@ def shape(doc, closer, case, m):
 
 class C02(Spec):
     prop = "C02"
-    lean_modules = ["SonicSpec.Props.C02"]
+    lean_modules = ["SonicSpec.Props.C02", "SonicSpec.Props.C02Fsm", "SonicSpec.Props.C02Generic"]
     rule = ("grammar-generated well-formed documents swept over 64 left paddings and over string/number/space lengths "
             "(every quote, backslash, number end and structural byte on every offset mod 16/32/64); single-edit "
             "malformations (delete/insert/replace one byte, truncate at every prefix; exhaustive for documents <= 96 "
@@ -237,6 +417,12 @@ class C02(Spec):
                 strictB = m[pre + "strictB"]
                 if api in OWN_STACK:
                     strictB = "1" if (m["strict"] == "1" and int(m["depth"]) <= DEPTH_ALL) else "0"
+                if api in GENERIC and m.get("gframes", "-") != "-":
+                    # the generic decoder's own frame count (Props/C02Generic: a value of index k fits iff 1 + k <= 4096)
+                    fits = 1 + int(m["gframes"]) <= 4096
+                    strictB = "1" if (m["strict"] == "1" and fits) else "0"
+                    if a == "1" and m["strict"] == "1" and not fits:
+                        out.append(("tie:generic-frames:" + api, "%s: %s accepted a document that needs %s+1 slots" % (env, api, m["gframes"])))
                 # typed destination: when encoding/json refuses the same document for the same type with a type
                 # error, a refusal by sonic is about types too, whatever kind it reports (seen: a bool field whose
                 # mismatching value is shorter than 4 bytes before the end gives "eof" instead of a mismatch)
@@ -259,7 +445,7 @@ class C02(Spec):
                 # correspondence with the transliterated FSM (not a statement of the property)
                 if exact and a in ("0", "1"):
                     want = m[exact]      # w_* : the decoder hands DOC to skip_one with a fresh machine
-                    if exact.endswith("valB") and not _utf8(_doc(case)):
+                    if exact.endswith("valB") and api not in RAW_VALIDATE and not _utf8(_doc(case)):
                         # validate-string configurations first replace ill-formed UTF-8 in the whole document
                         # (jitdec/decoder.go:55); lengths change and with them the block geometry of
                         # advance_string_validate.  The property-level verdict above does not depend on that.
@@ -324,7 +510,24 @@ class C02(Spec):
     def extra(self, ctx):
         run = ctx["run"]
         run.cov["c02_counts"] = self.counts
-        return []
+        problems = []
+        try:
+            want = extract_generic_table(os.path.join(core.REPO, GENERIC_SRC))
+            res, _ = core.run_model(["gentab"], 5.0)
+            got = {}
+            for ent in (core.fields(res[0]).get("model") or "").split():
+                tok, st, rest = ent.split(":", 2)
+                got[(tok, int(st))] = rest
+            diff = sorted("%s/state %d: source %s, model %s" % (k[0], k[1], want.get(k), got.get(k))
+                          for k in set(want) | set(got) if want.get(k) != got.get(k))
+            run.cov["generic_table_entries"] = len(want)
+            if diff:
+                problems.append({"what": "regenerated fact: the generic decoder's (token, state) table in %s no longer is the table "
+                                         "Props/C02Generic.lean is about" % GENERIC_SRC, "differences": diff[:20]})
+        except Exception as e:
+            problems.append({"what": "regenerated fact: cannot re-read the generic decoder's state machine from %s" % GENERIC_SRC,
+                             "error": repr(e)[:300]})
+        return problems
 
     # ------------------------------------------------------------------ known findings
     def matchers(self):
@@ -342,7 +545,7 @@ class C02(Spec):
         def trailing_ignored(d, params):
             # the first value is well-formed (the model of skip_one accepts it) and something non-space follows it
             what, api, shp = parts(d)
-            return what == "accepts-malformed" and api in ("get", "newraw_check") and shp == "trailing-bytes"
+            return what == "accepts-malformed" and api in IGNORE_TRAILING and shp == "trailing-bytes"
 
         def short_literal(d, params):
             # the whole input is shorter than the literal it starts (n, nu, t, tr, f, fa, fal after optional space,
@@ -355,7 +558,8 @@ class C02(Spec):
                     return False
             elif not (what == "accepts-malformed" and shp == "short-literal"):
                 return False
-            if api not in ("valid", "validstr", "valid_std", "get", "newraw_check", "skip"):
+            if api not in ("valid", "validstr", "valid_std", "get", "newraw_check", "skip", "enc_valid", "get_str", "newraw_cr",
+                           "loads", "mar_marshaler", "mar_raw"):
                 return False
             doc = _doc(d["case"])
             tails = [f[5:] for f in d["case"][3:] if f.startswith("tail=")]
